@@ -254,6 +254,116 @@ pub fn build_kern(num_glyphs: u16, glyphs: &[u16], variant: u64) -> Vec<u8> {
     out
 }
 
+fn be32(d: &[u8], o: usize) -> Option<u32> {
+    d.get(o..o + 4).map(|b| u32::from_be_bytes([b[0], b[1], b[2], b[3]]))
+}
+
+/// (lookup type, flag, mark filtering set, absolute subtable offsets) of every lookup.
+pub fn lookup_list(d: &[u8]) -> Option<Vec<(u16, u16, Option<u16>, Vec<usize>)>> {
+    let ll = usize::from(be16(d, 8)?);
+    if ll == 0 {
+        return None;
+    }
+    let n = usize::from(be16(d, ll)?);
+    let mut out = Vec::with_capacity(n);
+    for i in 0..n {
+        let l = ll + usize::from(be16(d, ll + 2 + 2 * i)?);
+        let ty = be16(d, l)?;
+        let flag = be16(d, l + 2)?;
+        let sc = usize::from(be16(d, l + 4)?);
+        let mut subs = Vec::with_capacity(sc);
+        for j in 0..sc {
+            subs.push(l + usize::from(be16(d, l + 6 + 2 * j)?));
+        }
+        let mfs = if flag & 0x10 != 0 { Some(be16(d, l + 6 + 2 * sc)?) } else { None };
+        out.push((ty, flag, mfs, subs));
+    }
+    Some(out)
+}
+
+/// See `Surgery::ExtensionRelocate`.
+pub fn extension_relocate(d: &[u8], gpos: bool, a: usize, b: usize) -> Option<Vec<u8>> {
+    if be16(d, 0)? != 1 || be16(d, 2)? != 0 || d.len() > 40_000 {
+        return None;
+    }
+    let ext_type: u16 = if gpos { 9 } else { 7 };
+    let (sl, fl) = (usize::from(be16(d, 4)?), usize::from(be16(d, 6)?));
+    let lookups = lookup_list(d)?;
+    if lookups.len() > 300 || a >= lookups.len() || b >= lookups.len() || a == b {
+        return None;
+    }
+    // resolve each subtable to (real type, absolute offset of the real subtable)
+    let mut resolved: Vec<Vec<(u16, usize)>> = Vec::new();
+    for (ty, _, _, subs) in &lookups {
+        let mut v = Vec::new();
+        for s in subs {
+            if *ty == ext_type {
+                let inner_ty = be16(d, s + 2)?;
+                let off = be32(d, s + 4)? as usize;
+                v.push((inner_ty, s + off));
+            } else {
+                v.push((*ty, *s));
+            }
+        }
+        resolved.push(v);
+    }
+    // Coverage of the first subtable (offset at +2 in every format that has one there;
+    // context format 3 and extension are avoided by the generator)
+    let cov = |k: usize| -> Option<usize> {
+        let (_, s) = *resolved[k].first()?;
+        let c = usize::from(be16(d, s + 2)?);
+        if c == 0 || s + c + 4 > d.len() {
+            return None;
+        }
+        Some(s + c)
+    };
+    let (xa, xb) = (cov(a)?, cov(b)?);
+    // sizes of the new lookup area
+    let n = lookups.len();
+    let mut area = 2 + 2 * n;
+    for (_, _, mfs, subs) in &lookups {
+        area += 6 + 2 * subs.len() + if mfs.is_some() { 2 } else { 0 } + 8 * subs.len();
+    }
+    let b1 = (10 + area + 3) / 4 * 4;
+    if b1 + sl.max(fl) > 0xFFFF || area > 0xFFFF {
+        return None;
+    }
+    let b2 = b1 + 65536 + xa - xb;
+    let mut out = vec![0u8; b2 + d.len()];
+    out[0..4].copy_from_slice(&[0, 1, 0, 0]);
+    out[4..6].copy_from_slice(&((b1 + sl) as u16).to_be_bytes());
+    out[6..8].copy_from_slice(&((b1 + fl) as u16).to_be_bytes());
+    out[8..10].copy_from_slice(&10u16.to_be_bytes());
+    out[b1..b1 + d.len()].copy_from_slice(d);
+    out[b2..b2 + d.len()].copy_from_slice(d);
+    let ll = 10;
+    out[ll..ll + 2].copy_from_slice(&(n as u16).to_be_bytes());
+    let mut at = ll + 2 + 2 * n;
+    for (i, (_, flag, mfs, subs)) in lookups.iter().enumerate() {
+        out[ll + 2 + 2 * i..ll + 4 + 2 * i].copy_from_slice(&((at - ll) as u16).to_be_bytes());
+        let l = at;
+        out[l..l + 2].copy_from_slice(&ext_type.to_be_bytes());
+        out[l + 2..l + 4].copy_from_slice(&flag.to_be_bytes());
+        out[l + 4..l + 6].copy_from_slice(&(subs.len() as u16).to_be_bytes());
+        let mut p = l + 6 + 2 * subs.len();
+        if let Some(m) = mfs {
+            out[p..p + 2].copy_from_slice(&m.to_be_bytes());
+            p += 2;
+        }
+        for (j, (real_ty, real_at)) in resolved[i].iter().enumerate() {
+            out[l + 6 + 2 * j..l + 8 + 2 * j].copy_from_slice(&((p - l) as u16).to_be_bytes());
+            let blob = if i == b { b2 } else { b1 };
+            let target = blob + real_at;
+            out[p..p + 2].copy_from_slice(&1u16.to_be_bytes());
+            out[p + 2..p + 4].copy_from_slice(&real_ty.to_be_bytes());
+            out[p + 4..p + 8].copy_from_slice(&((target - p) as u32).to_be_bytes());
+            p += 8;
+        }
+        at = p;
+    }
+    Some(out)
+}
+
 fn num_glyphs(disk: &Disk) -> Result<u16, String> {
     disk.tables
         .get(&tag_from_str("maxp"))
@@ -347,6 +457,14 @@ pub fn apply(disk: &mut Disk, s: &Surgery) -> Result<(), String> {
             disk.tables
                 .insert(tag_from_str("kern"), Rc::new(build_kern(n, glyphs, *variant)));
             disk.tables.remove(&tag_from_str("GPOS"));
+            Ok(())
+        }
+        Surgery::ExtensionRelocate { table, a, b } => {
+            let t = tag_from_str(table);
+            let old = disk.tables.get(&t).ok_or("surgery: no layout table")?.clone();
+            let new = extension_relocate(&old, table == "GPOS", usize::from(*a), usize::from(*b))
+                .ok_or("surgery: table cannot be relocated")?;
+            disk.tables.insert(t, Rc::new(new));
             Ok(())
         }
         Surgery::CompactHmtx { num_h_metrics } => {
